@@ -721,6 +721,18 @@ def build_real(name, p):
     return Sphere(n=p["n"], r=p["r"], center=c), Lens(0.8, Mie())
 
 
+def mk_points(x, y, z, form):
+    """the same explicit points handed over in each documented call form of detector_points"""
+    from holopy.core.metadata import detector_points
+    if form == "dict":
+        return detector_points({"x": x, "y": y, "z": z})
+    if form == "dict-z":
+        return detector_points({"z": z}, x=x, y=y)
+    if form == "positional-dict":
+        return detector_points(dict(x=x, y=y), z=z)
+    return detector_points(x=x, y=y, z=z)
+
+
 def real_case(p):
     """evaluate the property's own predicate on the implementation for one configuration;
     returns list of (variant, maxdiff, scale)"""
@@ -736,6 +748,9 @@ def real_case(p):
     if p.get("shift"):
         t = p["shift"]
         d = d.assign_coords(x=d.x + t[0], y=d.y + t[1])
+    if p.get("zshift"):
+        d = d.assign_coords(z=d.z + p["zshift"])          # a detector plane that is not z = 0
+    form = p.get("pts_form", "keywords")
     calc = calc_field if p.get("field") else calc_holo
     out = []
     snaps = (snap(d), repr(scat))
@@ -743,7 +758,7 @@ def real_case(p):
     hv = flat_order_values(h, "grid")
     scale = float(np.abs(hv).max())
     f = flat(d)
-    pts = detector_points(x=f.x.values, y=f.y.values, z=f.z.values)
+    pts = mk_points(f.x.values, f.y.values, f.z.values, form)
     out.append(("points", float(np.abs(flat_order_values(calc(pts, scat, **kw), "flat") - hv).max()), scale))
     sub, sel = make_subset_data(d, pixels=p["pixels"], return_selection=True, seed=p["seed"])
     hs = calc(sub, scat, **kw)
@@ -766,7 +781,7 @@ def real_case(p):
     tw = p.get("twin_shift") or [0.35, -0.2]
     d2 = d.assign_coords(x=d.x + tw[0], y=d.y + tw[1])
     f2 = flat(d2)
-    pts2 = detector_points(x=f2.x.values, y=f2.y.values, z=f2.z.values)
+    pts2 = mk_points(f2.x.values, f2.y.values, f2.z.values, form)
     hv2 = flat_order_values(calc(d2, scat, **kw), "grid")
     out.append(("shifted-twin", float(np.abs(flat_order_values(calc(pts2, scat, **kw), "flat") - hv2).max()), scale))
     # a second calculation on the same detector object gives the same answer (history)
@@ -788,6 +803,7 @@ def gen_real(rng, name, large=False):
                 center=[dy(rng, -1, 3, 4), dy(rng, -1, 3, 4), dy(rng, 4, 9, 4)], n=rng.choice([1.45, 1.59]),
                 r=rng.choice([0.3, 0.5, 0.7]), pol=rng.choice([[1, 0], [1, 0], [0, 1]]) if name != "tmatrix" else [1, 0],
                 shift=rng.choice([None, [dy(rng, -3, 3), dy(rng, -3, 3)]]),
+                zshift=rng.choice([None, 0.5, -0.75, 1.25]), pts_form=rng.choice(["keywords", "dict", "dict-z", "positional-dict"]),
                 pixels=(rng.choice([1, n, rng.randint(1, n)]) if not large else rng.randint(2, 9)),
                 seed=rng.choice([0, rng.randint(0, 9999)]),
                 crop=[rng.randint(0, nx), rng.randint(0, ny)], field=rng.random() < 0.3)
